@@ -745,3 +745,77 @@ pub fn h_mapo_validate_merge(inp: &Inp) -> u8 {
         1
     }
 }
+
+//@ disabled-harness (two Map::merge calls: the encoder runs out of memory; natively this harness returns 207 = a removed member comes back through the merge whenever the second add does not re-add it, see DESIGN.md §8) props=C03,C02,C05,C09 name=Map<Orswot> merge vs op delivery around a remove (the repo's examples/reset_remove.rs with the second edit by the same actor): A adds members under key k, B removes k having seen that, A adds other members under k without seeing the remove; merging the two replicas in either direction must read like the replica that applied the three ops
+#[no_mangle]
+pub fn h_mapo_merge_d1(inp: &Inp) -> u8 {
+    let mut i = In::new(inp);
+    let a = i.below(NA);
+    let b = i.below(NA);
+    let key = i.below(NK);
+    let m1 = i.below(1 << NMM);
+    let m2 = i.below(1 << NMM);
+    i.assume(a != b && m1 != 0);
+    if !i.ok {
+        return 2;
+    }
+    let mut ra: M = Map::new();
+    let u1 = ra.update(key, ra.read_ctx().derive_add_ctx(a), |set, c| set.add_all(mask_vec(m1), c));
+    ra.apply(u1.clone());
+    let mut rb = ra.clone();
+    let rm = rb.rm(key, rb.get(&key).derive_rm_ctx());
+    rb.apply(rm.clone());
+    let u2 = ra.update(key, ra.get(&key).derive_add_ctx(a), |set, c| set.add_all(mask_vec(m2), c));
+    ra.apply(u2.clone());
+    // op delivery of all three
+    let mut w: M = Map::new();
+    w.apply(u1);
+    w.apply(rm);
+    w.apply(u2);
+    // the specification: only the second add survives
+    let got = w.get(&key).val;
+    match &got {
+        None => return 0,
+        Some(set) => {
+            let mut m = 0u8;
+            while m < NMM {
+                if set.contains(&m).val != ((m2 >> m) & 1 == 1) {
+                    return 0;
+                }
+                m += 1;
+            }
+        }
+    }
+    // state merges, both directions
+    let mut x = rb.clone();
+    x.merge(ra.clone());
+    let mut y = ra.clone();
+    y.merge(rb.clone());
+    let mut resurrect = false;
+    for mm in [&x, &y] {
+        match mm.get(&key).val {
+            None => return 0,
+            Some(set) => {
+                let mut m = 0u8;
+                while m < NMM {
+                    let has = set.contains(&m).val;
+                    let want = (m2 >> m) & 1 == 1;
+                    if has && !want && (m1 >> m) & 1 == 1 {
+                        resurrect = true;
+                    } else if has != want {
+                        return 0;
+                    }
+                    m += 1;
+                }
+            }
+        }
+    }
+    if resurrect {
+        // known finding (announced by C03): a member removed by B comes back through the merge
+        return 207;
+    }
+    if x != w || y != w {
+        return 0;
+    }
+    1
+}
